@@ -14,6 +14,10 @@ import PandoraModel.Model.PyInterp
 import PandoraModel.Generated.KernelsInterp
 import PandoraModel.Lemmas.InterpBits
 import Mathlib.Tactic.Linarith
+import Mathlib.Tactic.Ring
+import Mathlib.Tactic.NormNum
+import Mathlib.Tactic.IntervalCases
+import Mathlib.Data.Rat.Lemmas
 
 set_option linter.unusedSimpArgs false
 
@@ -439,28 +443,179 @@ theorem occlusionMcCnn_generated_eq (m : DMap) (r c : Nat) (hr : r < m.rows) (hc
     · have hd : (((argmaxBool L : Nat) : Int) = 0) := by exact_mod_cast ha0
       generalize R.getD (argmaxBool R) false = found
       obtain ⟨f1, f2, f3⟩ := flag_update (m.flag r c) found hle
-      have hin : inb2 (m.rows : Int) (m.cols : Int) (r : Int) ((c : Int) + ((argmaxBool R : Nat) : Int)) = true :=
-        inb2_of hr0 hrR (by omega) (by omega)
-      have hget : get2 (embedDisp m) (m.rows : Int) (m.cols : Int) (r : Int) ((c : Int) + ((argmaxBool R : Nat) : Int))
-          = m.disp r (c + argmaxBool R) := by
+      -- whatever the text of the index (`row + arg_valid`, `arg_valid + row`, …): its value is what matters
+      have hin : ∀ j : Int, j = (c : Int) + ((argmaxBool R : Nat) : Int) →
+          inb2 (m.rows : Int) (m.cols : Int) (r : Int) j = true := by
+        intro j hj; subst hj; exact inb2_of hr0 hrR (by omega) (by omega)
+      have hget : ∀ j : Int, j = (c : Int) + ((argmaxBool R : Nat) : Int) →
+          get2 (embedDisp m) (m.rows : Int) (m.cols : Int) (r : Int) j = m.disp r (c + argmaxBool R) := by
+        intro j hj; subst hj
         rw [get2_of _ _ _ hr0 (by omega)]
         simp only [embedDisp, Int.toNat_natCast]
         congr 1
-      simp only [hd, ha0, Nat.cast_zero, f1, f2, f3, hin, hget, decide_true, if_true, Bool.and_true, Bool.and_self, beq_self_eq_true]
+      simp (disch := omega) only [hd, ha0, Nat.cast_zero, f1, f2, f3, hin, hget, decide_true, if_true, Bool.and_true, Bool.and_self, beq_self_eq_true]
     · have hd : ¬ (((argmaxBool L : Nat) : Int) = 0) := by exact_mod_cast ha0
       generalize L.getD (argmaxBool L) false = found
       obtain ⟨f1, f2, f3⟩ := flag_update (m.flag r c) found hle
-      have hin : inb2 (m.rows : Int) (m.cols : Int) (r : Int) ((c : Int) - ((argmaxBool L : Nat) : Int)) = true :=
-        inb2_of hr0 hrR (by omega) (by omega)
-      have hget : get2 (embedDisp m) (m.rows : Int) (m.cols : Int) (r : Int) ((c : Int) - ((argmaxBool L : Nat) : Int))
-          = m.disp r (c - argmaxBool L) := by
+      have hin : ∀ j : Int, j = (c : Int) - ((argmaxBool L : Nat) : Int) →
+          inb2 (m.rows : Int) (m.cols : Int) (r : Int) j = true := by
+        intro j hj; subst hj; exact inb2_of hr0 hrR (by omega) (by omega)
+      have hget : ∀ j : Int, j = (c : Int) - ((argmaxBool L : Nat) : Int) →
+          get2 (embedDisp m) (m.rows : Int) (m.cols : Int) (r : Int) j = m.disp r (c - argmaxBool L) := by
+        intro j hj; subst hj
         rw [get2_of _ _ _ hr0 (by omega)]
         simp only [embedDisp, Int.toNat_natCast]
         congr 1
         omega
       have hbeq : (argmaxBool L == 0) = false := by simp [ha0]
-      simp only [hd, hbeq, f1, f2, f3, hin, hget, decide_true, decide_false, Bool.false_eq_true, if_false, if_true, Bool.and_true, Bool.and_self]
+      simp (disch := omega) only [hd, hbeq, f1, f2, f3, hin, hget, decide_true, decide_false, Bool.false_eq_true, if_false, if_true, Bool.and_true, Bool.and_self]
   · simp [hocc, embedDisp, embedFlag]
+
+/-! ## `interpolate_mismatch_mc_cnn` -/
+
+/-- Python `int(q)` of `q = (n / 2) * i` is the hand model's `truncHalf n i` (`Int.tdiv (n * i) 2`) -/
+theorem truncRat_half (n i : Int) : truncRat (((n : Rat) / 2) * (i : Rat)) = Int.tdiv (n * i) 2 := by
+  have e : ((n : Rat) / 2) * (i : Rat) = (((n * i : Int)) : Rat) / (((2 : Int)) : Rat) := by push_cast; ring
+  rw [e]
+  obtain ⟨g, h1, h2⟩ := Rat.exists_eq_mul_div_num_and_eq_mul_div_den (n * i) (d := 2) (by norm_num)
+  have hden : (0 : Int) < (((((n * i : Int)) : Rat) / (((2 : Int)) : Rat)).den : Int) := by
+    exact_mod_cast Rat.den_pos _
+  have hg : 0 < g := by
+    by_contra hneg
+    have : g ≤ 0 := by omega
+    nlinarith
+  unfold truncRat
+  calc Int.tdiv ((((n * i : Int)) : Rat) / (((2 : Int)) : Rat)).num (((((n * i : Int)) : Rat) / (((2 : Int)) : Rat)).den : Int)
+      = Int.tdiv (g * ((((n * i : Int)) : Rat) / (((2 : Int)) : Rat)).num) (g * (((((n * i : Int)) : Rat) / (((2 : Int)) : Rat)).den : Int)) := by
+        rw [Int.mul_tdiv_mul_of_pos _ _ hg]
+    _ = Int.tdiv (n * i) 2 := by rw [← h1, ← h2]
+
+/-- A generated loop whose body — whatever its text — leaves with NaN outside the image, leaves with the disparity on
+    a valid pixel and otherwise goes on, at the position `pos i` of its iteration `i`, computes `Interp.scanLoop`
+    (accumulator cell initialised with NaN). -/
+theorem forLoop_scanLoop (m : DMap) (pos : Nat → Int × Int) (body : Int → Bool × Val → Bool × (Bool × Val))
+    (h : ∀ (i : Nat) (ok : Bool) (out : Val), body (i : Int) (ok, out) =
+      if !m.inside (pos i) then (true, (ok, Val.nan))
+      else if m.validAt (pos i) then (true, (ok, m.dispAt (pos i)))
+      else (false, (ok, out))) :
+    ∀ (n i : Nat) (ok : Bool), forLoop body 1 n (i : Int) (ok, Val.nan) = (ok, scanLoop Val.nan m pos n i) := by
+  intro n
+  induction n with
+  | zero => intro i ok; simp [forLoop, scanLoop]
+  | succ n ih =>
+    intro i ok
+    simp only [forLoop, h, scanLoop]
+    by_cases hin : m.inside (pos i) = true
+    · by_cases hv : m.validAt (pos i) = true
+      · simp [hin, hv]
+      · simp only [hin, hv, Bool.not_true, Bool.false_eq_true, if_false]
+        have := ih (i + 1) ok
+        rw [show (((i + 1 : Nat)) : Int) = (i : Int) + 1 by push_cast; rfl] at this
+        exact this
+    · simp [hin]
+
+theorem forRange_scanLoop (m : DMap) (pos : Nat → Int × Int) (b : Int) (body : Int → Bool × Val → Bool × (Bool × Val))
+    (h : ∀ (i : Nat) (ok : Bool) (out : Val), body (i : Int) (ok, out) =
+      if !m.inside (pos i) then (true, (ok, Val.nan))
+      else if m.validAt (pos i) then (true, (ok, m.dispAt (pos i)))
+      else (false, (ok, out))) :
+    forRange 1 b 1 body (true, Val.nan) = (true, scanLoop Val.nan m pos (rangeLen 1 b 1) 1) := by
+  have := forLoop_scanLoop m pos body h (rangeLen 1 b 1) 1 true
+  simpa [forRange] using this
+
+/-- the 16 directions of the mc-cnn mismatch kernel, as the literal `np.array([[0.0, 1.0], [-0.5, 1.0], …])` is translated -/
+def mcDirs : List (List Rat) :=
+  [[(0 : Rat), (1 : Rat)], [((-1 : Rat) / 2), (1 : Rat)], [(-1 : Rat), (1 : Rat)], [(-1 : Rat), ((1 : Rat) / 2)], [(-1 : Rat), (0 : Rat)], [(-1 : Rat), ((-1 : Rat) / 2)], [(-1 : Rat), (-1 : Rat)], [((-1 : Rat) / 2), (-1 : Rat)], [(0 : Rat), (-1 : Rat)], [((1 : Rat) / 2), (-1 : Rat)], [(1 : Rat), (-1 : Rat)], [(1 : Rat), ((-1 : Rat) / 2)], [(1 : Rat), (0 : Rat)], [(1 : Rat), ((1 : Rat) / 2)], [(1 : Rat), (1 : Rat)], [((1 : Rat) / 2), (1 : Rat)]]
+
+/-- every entry of the source's table is half the hand model's (doubled, integer) `dirs16` entry -/
+theorem mcDirs_half (k : Nat) (hk : k < 16) :
+    get2 (tab2 (0 : Rat) mcDirs) 16 2 (k : Int) 0 = (((dirs16.getD k (0, 0)).1 : Int) : Rat) / 2
+    ∧ get2 (tab2 (0 : Rat) mcDirs) 16 2 (k : Int) 1 = (((dirs16.getD k (0, 0)).2 : Int) : Rat) / 2 := by
+  interval_cases k <;> (simp [get2, wrap, tab2, mcDirs, dirs16]; try norm_num)
+
+/-- **One pixel of `interpolate_mismatch_mc_cnn`, as the source defines it today, is the hand model's `mismMcPixel`**
+    (guarded text: accumulator initialised with NaN, filled only when a finite source is in sight; `|=`): the 16 scans
+    along `int(dir * i)`, `i = 1 … max(nrow, ncol) - 1`, the edge test, the first valid pixel, the guard and the
+    `nanmedian` — for every map and every pixel inside it, every read inside the arrays. -/
+theorem mismatchMcCnn_generated_eq (m : DMap) (r c : Nat) (hr : r < m.rows) (hc : c < m.cols) :
+    mismatchMcCnnPx (embedDisp m) m.rows m.cols (embedFlag m) m.rows m.cols r c
+      = .ok ((mismMcPixel ⟨true, .or⟩ m r c).1, (((mismMcPixel ⟨true, .or⟩ m r c).2 : Nat) : Int)) := by
+  have hr0 : (0 : Int) ≤ r := Int.natCast_nonneg r
+  have hc0 : (0 : Int) ≤ c := Int.natCast_nonneg c
+  have hrR : (r : Int) < m.rows := by exact_mod_cast hr
+  have hcC : (c : Int) < m.cols := by exact_mod_cast hc
+  have hb : embedFlag m (r : Int) (c : Int) = ((m.flag r c : Nat) : Int) := by simp [embedFlag]
+  have h32 : (32 : Int) = ((32 : Nat) : Int) := rfl
+  have hft := flag_test m r c 512
+  rw [show ((512 : Nat) : Int) = 512 from rfl] at hft
+  have hlen : rangeLen 1 (imax (m.cols : Int) (m.rows : Int)) 1 = max m.cols m.rows - 1 := by
+    simp only [rangeLen]; unfold imax; split <;> simp <;> omega
+  have htab := mcDirs_half
+  simp only [mcDirs] at htab
+  have hmi : mismatch = 512 := rfl
+  have hfm : filledMismatch = 32 := rfl
+  simp only [mismatchMcCnnPx, get2_of (embedFlag m) _ _ hr0 hc0, get2_of (embedDisp m) _ _ hr0 hc0,
+    inb2_of hr0 hrR hc0 hcC, embedFlag_nonneg, decide_true, Bool.and_true]
+  rw [hft]
+  -- the 16 cells of the accumulator: each is the hand model's scan along its direction
+  rw [collect_ok _ (fun k => scanLoop Val.nan m (posMc r c (dirs16.getD k.toNat (0, 0))) (max m.cols m.rows - 1) 1) 16 ?cells]
+  · have hmap : ((List.range 16).map fun (j : Nat) =>
+          (fun (k : Int) => scanLoop Val.nan m (posMc r c (dirs16.getD k.toNat (0, 0))) (max m.cols m.rows - 1) 1) (j : Int))
+        = dirs16.map fun d => scanLoop Val.nan m (posMc r c d) (max m.cols m.rows - 1) 1 := by
+      simp only [Int.toNat_natCast]
+      rfl
+    rw [hmap]
+    unfold mismMcPixel
+    simp only [hmi, hfm, Res.isOk, Res.getD, Bool.and_true, if_true]
+    generalize (dirs16.map fun d => scanLoop Val.nan m (posMc r c d) (max m.cols m.rows - 1) 1) = V
+    by_cases hmis : ((m.flag r c &&& 512) != 0) = true
+    · have hle : 512 ≤ m.flag r c := le_of_and_two_pow (k := 9) hmis
+      have hnn : (0 : Int) ≤ ((m.flag r c : Nat) : Int) - ((512 : Nat) : Int) := by omega
+      have hbor := sub_bor (m.flag r c) 512 32 hle
+      simp only [hmis, if_true, hb, h32]
+      by_cases hg : (nums V).isEmpty = true
+      · simp [hg, anyFinite, embedDisp]
+      · have hbor' : bor (((m.flag r c : Nat) : Int) - 512) 32 = (((m.flag r c - 512) ||| 32 : Nat) : Int) := by
+          simpa using hbor
+        simp [hg, anyFinite, PyInterp.nanmedian, raise, hle, hbor']
+    · simp [hmis, embedDisp, embedFlag]
+  case cells =>
+    intro j hj
+    obtain ⟨t0, t1⟩ := htab j hj
+    have hj0 : (0 : Int) ≤ (j : Int) := Int.natCast_nonneg j
+    have hj16 : (j : Int) < 16 := by exact_mod_cast hj
+    simp only [Int.toNat_natCast]
+    rw [forRange_scanLoop m (posMc r c (dirs16.getD j (0, 0))) _ _ ?body]
+    · simp [hlen]
+    case body =>
+      intro i ok out
+      simp only [t0, t1, truncRat_half, inb2_of hj0 hj16 (show (0 : Int) ≤ 0 by omega) (show (0 : Int) < 2 by omega),
+        inb2_of hj0 hj16 (show (0 : Int) ≤ 1 by omega) (show (1 : Int) < 2 by omega), Bool.and_true, posMc, truncHalf]
+      obtain ⟨dr, hdr⟩ : ∃ dr : Int, Int.tdiv ((dirs16.getD j (0, 0)).1 * (i : Int)) 2 = dr := ⟨_, rfl⟩
+      obtain ⟨dc, hdc⟩ : ∃ dc : Int, Int.tdiv ((dirs16.getD j (0, 0)).2 * (i : Int)) 2 = dc := ⟨_, rfl⟩
+      simp only [hdr, hdc]
+      by_cases hin : m.inside ((r : Int) + dc, (c : Int) + dr) = true
+      · have hin' := hin
+        simp only [DMap.inside, Bool.and_eq_true, decide_eq_true_eq] at hin'
+        obtain ⟨⟨⟨h1, h2⟩, h3⟩, h4⟩ := hin'
+        have hv := valid_test m ((r : Int) + dc, (c : Int) + dr)
+        by_cases hval : m.validAt ((r : Int) + dc, (c : Int) + dr) = true
+        · simp only [hin, hval, Bool.not_true, Bool.false_eq_true, if_false, if_true]
+          split
+          · rename_i hcnd; simp only [Bool.or_eq_true, decide_eq_true_eq] at hcnd; omega
+          · simp [get2_of (embedFlag m) _ _ h1 h3, get2_of (embedDisp m) _ _ h1 h3, inb2_of h1 h2 h3 h4,
+              embedFlag_nonneg, hv, hval, DMap.dispAt, embedDisp]
+        · simp only [hin, hval, Bool.not_true, Bool.false_eq_true, if_false]
+          split
+          · rename_i hcnd; simp only [Bool.or_eq_true, decide_eq_true_eq] at hcnd; omega
+          · simp [get2_of (embedFlag m) _ _ h1 h3, inb2_of h1 h2 h3 h4, embedFlag_nonneg, hv, hval]
+      · simp only [hin, Bool.not_false, if_true]
+        split
+        · rfl
+        · rename_i hcnd
+          simp only [DMap.inside, Bool.and_eq_true, decide_eq_true_eq] at hin
+          simp only [Bool.or_eq_true, decide_eq_true_eq, not_or] at hcnd
+          omega
 
 /-! ## Non-vacuity -/
 
@@ -489,5 +644,14 @@ example : mismSgmPixel ⟨true, .or⟩ exMap2 0 3 = (.num 5, 32) := by decide +k
 -- occlusion at column 0 of `exMap2` (nothing valid on the left: filled from the right), and a row without valid pixel
 example : occlusionMcCnnPx (embedDisp exMap2) 1 5 (embedFlag exMap2) 1 5 0 0 = .ok (.num 4, 16) := by decide +kernel
 example : occlMcPixel ⟨true, .or⟩ exMap2 0 0 = (.num 4, 16) := by decide +kernel
+
+/-- a mismatch seen from (1, 2) of a 3×5 map: half-step directions reach different pixels than the sgm ones -/
+def exMap3 : DMap :=
+  { rows := 3, cols := 5,
+    disp := fun r c => if r = 1 ∧ c = 2 then .nan else .num (5 * r + c),
+    flag := fun r c => if r = 1 ∧ c = 2 then 512 else if r = 0 ∧ c = 4 then 2 else 0 }
+
+example : mismatchMcCnnPx (embedDisp exMap3) 3 5 (embedFlag exMap3) 3 5 1 2 = .ok (.num 7, 32) := by decide +kernel
+example : mismMcPixel ⟨true, .or⟩ exMap3 1 2 = (.num 7, 32) := by decide +kernel
 
 end Pandora.C14Kernels
